@@ -1021,10 +1021,17 @@ func (s *StructType) Reader() TypeReader {
 func (s *StructType) Type() reflect.Type {
 	fields := make([]reflect.StructField, len(s.Members))
 	var offset uintptr = 0
+	names := make(map[string]bool)
 	for i, m := range s.Members {
 		typ := m.Type.Type()
+		// members "x" and "X" (or twice "x") have the same Go name
+		name := CleanName(m.Name)
+		for j := 0; names[name]; j++ {
+			name = fmt.Sprintf("%s_%d", CleanName(m.Name), j)
+		}
+		names[name] = true
 		fields[i] = reflect.StructField{
-			Name:      CleanName(m.Name),
+			Name:      name,
 			PkgPath:   typ.PkgPath(),
 			Type:      typ,
 			Index:     []int{i},
